@@ -106,6 +106,8 @@ class PNormalise(Pattern):
 
     def __next__(self):
         value = Pattern.value(self.input)
+        if value is None:
+            return None
 
         if self.lower is None:
             self.lower = value
